@@ -59,8 +59,10 @@ def scenario(svc_key, shape, sid, rng, silent_ok=True):
             steps.append({"op": "udp", "laddr": "127.0.0.1:%d" % port, "raddr": "%s:%d" % (ip, 3000 + k), "hex": b.hex(), "timeout_ms": 6000})
         return {"id": sid, "svc": svc_key, "steps": steps, "ending": "datagram"}
     ending = shape["ending"]
-    if ending == "silent" and not silent_ok:
-        ending = "close"
+    if ending.startswith("silent") and not silent_ok:
+        ending = "linger"
+    if ending == "silent!":
+        ending = "silent"
     for c in range(shape["k"]):
         steps.append({"op": "open", "c": "c%d" % c, "laddr": "127.0.0.1:%d" % port, "raddr": "%s:%d" % (ip, 3000 + c)})
     for b in parts:
@@ -78,6 +80,9 @@ def scenario(svc_key, shape, sid, rng, silent_ok=True):
         elif ending == "shut":
             steps.append({"op": "shut", "c": "c%d" % c})
             steps.append({"op": "recv", "c": "c%d" % c, "until": "eof", "timeout_ms": 6000})
+        elif ending == "linger":
+            steps.append({"op": "sleep", "ms": 1500})
+            steps.append({"op": "close", "c": "c%d" % c})
         # silent: the connection simply stays open (closed by the lab when the run ends)
     return {"id": sid, "svc": svc_key, "steps": steps, "ending": ending}
 
@@ -103,6 +108,11 @@ def build(ck, tier, seed, silent_services=None):
                 core.append({"prefix": pre, "ops": [{"o": "raw", "i": c}], "ending": "close", "seg": "whole", "k": 1})
             core.append({"prefix": pre, "ops": [{"o": "trunc", "i": 0}], "ending": "shut", "seg": "whole", "k": 1})
         core.append({"prefix": len(g["canon"]), "ops": [], "ending": "shut", "seg": "dribble", "k": 2})
+        # the peer stays: a while (longer than any per-connection ticker/queue needs to fill) and then closes, or for
+        # good (idle timeout) - right after connecting, in the middle of the dialogue and after it
+        for pre in sorted({0, len(g["canon"]) // 2, len(g["canon"])}):
+            core.append({"prefix": pre, "ops": [], "ending": "linger", "seg": "whole", "k": 1})
+            core.append({"prefix": pre, "ops": [], "ending": "silent!", "seg": "whole", "k": 1})
         pick = core + rng.sample(small, min(per, len(small))) + rng.sample(sim, min(per // 2, len(sim)))
         for sh in pick:
             silent_ok = silent_services is None or key in silent_services
@@ -197,6 +207,6 @@ def explore(lab, scs, label, settle_ms=5000, idle_ms=0, rerun_done=False):
             culprits = suspects
         done = set(res["began"]) - set(res["in_flight"])
         todo = [s for s in todo if s["id"] not in culprits and (rerun_done or s["id"] not in done)]
-        if len(deaths) > 60:
+        if len(deaths) >= 8:      # enough to report; every further culprit costs a child process
             break
     return deaths, reports
